@@ -1,7 +1,7 @@
 #!/usr/bin/env python3
 """C09 — kernel-matrix caches: proofs (Properties_C09.v) + correspondence (extracted model vs
 shark::CachedMatrix/LRUCache on random operation histories) + spec monitor on the C++ output."""
-import os, sys, re
+import math, os, sys, re
 sys.path.insert(0, os.path.dirname(os.path.abspath(__file__)))
 from vlib import *
 
@@ -194,6 +194,109 @@ def derived_stream(ck, n):
     ck.notes["derived_cases"] = n
     return sum(len(c[0]) for c in cases)
 
+
+# ---------------- further matrices: GaussianKernelMatrix (float/double), DifferenceKernelMatrix, PartlyPrecomputedMatrix ----------------
+def gen_more(rng):
+    """returns (case line, info dict).  Integer coordinates: squared distances and inner products are exact, so the expected
+    entries are computed here, independently of the library (the harness harness/c09_more.cpp only prints what it is given)."""
+    kind = rng.choice(["G", "G", "X", "X", "Y"])
+    n = rng.randint(1, 9); dim = rng.randint(1, 4)
+    # batch structure matters (DataView lookups): unequal batches, e.g. 10 points / max batch 4 -> 4,3,3
+    mb = rng.choice([1, 2, 3, 4, 5, n, n + 3])
+    if kind == "G":
+        off = rng.choice([0, 50, 500, 3000, 5000, -4000, 70000])   # un-centred data: large norms (beyond 2^24: not representable in float), small mutual distances
+        pts = [[off + rng.randint(-3, 3) for _ in range(dim)] for _ in range(n)]
+        gamma = rng.choice([0.5, 0.125, 0.03125, 1.0])
+        ctype = rng.choice("fd")
+        flips = [rng.randrange(n) for _ in range(2 * rng.randint(0, 4))]
+        line = "G %s %s %d %d %d | %s | %s" % (ctype, float(gamma).hex(), n, dim, mb, " ".join(str(v) for p in pts for v in p), " ".join(map(str, flips)))
+        return line, {"kind": "G", "n": n, "pts": pts, "gamma": gamma, "ctype": ctype, "flips": flips}
+    if kind == "X":
+        n = max(n, 2); pts = [[rng.randint(-9, 9) for _ in range(dim)] for _ in range(n)]
+        npairs = rng.randint(1, 8)
+        pairs = [(rng.randrange(n), rng.randrange(n)) for _ in range(npairs)]
+        if rng.random() < 0.5: pairs[-1] = (n - 1, rng.randrange(n))       # an element of the last (possibly shorter) batch
+        flips = [rng.randrange(npairs) for _ in range(2 * rng.randint(0, 4))]
+        line = "X %d %d %d %d | %s | %s | %s" % (n, dim, mb, npairs, " ".join(str(v) for p in pts for v in p), " ".join("%d %d" % p for p in pairs), " ".join(map(str, flips)))
+        return line, {"kind": "X", "n": npairs, "pts": pts, "pairs": pairs, "flips": flips}
+    pts = [[rng.randint(-9, 9) for _ in range(dim)] for _ in range(n)]
+    rows = rng.randint(1, n + 1)
+    line = "Y %d %d %d | %s" % (n, dim, rows, " ".join(str(v) for p in pts for v in p))
+    return line, {"kind": "Y", "n": n, "pts": pts, "rows": rows}
+
+
+def monitor_more(out, info):
+    """spec predicate on the implementation's output: every entry read through every access path equals the direct kernel value
+    of the points that the flips put at (i, j)."""
+    import struct
+    if out.startswith("EXC") or out.startswith("STDEXC") or not out.strip():
+        return ["%s: implementation raised / printed nothing: %s" % (info["kind"], out[:120])]
+    f = dict(x.split("=", 1) for x in out.split()[1:])
+    n = info["n"]; perm = list(range(n))
+    fl = info.get("flips", [])
+    for a, b in zip(fl[0::2], fl[1::2]): perm[a], perm[b] = perm[b], perm[a]
+    dot = lambda u, v: sum(x * y for x, y in zip(u, v))
+    msgs = []
+    if info["kind"] == "G":
+        pts = info["pts"]; g = info["gamma"]
+        def exp_ij(i, j):
+            d2 = sum((x - y) ** 2 for x, y in zip(pts[perm[i]], pts[perm[j]]))
+            v = math.exp(-g * d2)
+            return struct.unpack("f", struct.pack("f", v))[0] if info["ctype"] == "f" else v
+        rel = 3e-7 if info["ctype"] == "f" else 1e-12
+        names = ["E", "R", "C", "P"]
+    elif info["kind"] == "X":
+        pts = info["pts"]; pairs = info["pairs"]
+        diff = [[x - y for x, y in zip(pts[g_], pts[s_])] for (s_, g_) in pairs]
+        exp_ij = lambda i, j: float(dot(diff[perm[i]], diff[perm[j]]))
+        rel = 0.0; names = ["E", "R", "C", "P"] + (["M"] if True else [])
+    else:
+        pts = info["pts"]; exp_ij = lambda i, j: float(dot(pts[i], pts[j])); rel = 0.0; names = ["E", "R"]
+        k = f.get("K", "").split(",")
+        if k != ["1", "1" if info["rows"] >= n else "0"]:
+            msgs.append("Y: isCached(0), isCached(n-1) = %s with %d cached rows of %d" % (k, info["rows"], n))
+    for nm in names:
+        if nm not in f: msgs.append("%s: field %s missing" % (info["kind"], nm)); continue
+        vals = [float.fromhex(x) for x in f[nm].split(",")] if f[nm] else []
+        if len(vals) != n * n: msgs.append("%s: field %s has %d values, expected %d" % (info["kind"], nm, len(vals), n * n)); continue
+        for i in range(n):
+            for j in range(n):
+                e = exp_ij(i, j); v = vals[i * n + j]
+                if not (abs(v - e) <= rel * max(abs(e), 1e-300)) and not (rel > 0 and abs(v - e) <= 1e-300):
+                    path = {"E": "entry()", "R": "row() (full and sub-range)", "C": "CachedMatrix::row over it (lines cached before the flips)", "P": "PrecomputedMatrix over it", "M": "matrix()"}[nm]
+                    what = {"G": "GaussianKernelMatrix<%s>" % ("float" if info.get("ctype") == "f" else "double"), "X": "DifferenceKernelMatrix", "Y": "PartlyPrecomputedMatrix"}[info["kind"]]
+                    msgs.append("%s read through %s: entry (%d,%d) = %r, direct kernel evaluation gives %r" % (what, path, i, j, v, e)); break
+            else: continue
+            break
+    return msgs
+
+
+def more_stream(ck, n):
+    exe, err = cxx_build("c09_more", [os.path.join(ROOT, "harness", "c09_more.cpp")])
+    if exe is None:
+        ck.oblige("harness for Gaussian / difference / partly precomputed matrices builds against /repo", False, err); return 0
+    tmpd = os.path.join(BUILD, "tmp", PID, "more"); os.makedirs(tmpd, exist_ok=True)
+    cases = [gen_more(ck.rng) for _ in range(n)]
+    cdir = os.path.join(ROOT, "corpus", PID)
+    rc, outl, err = run_lines(exe, [c for c, _ in cases], os.path.join(tmpd, "cases.txt"))
+    nbad = 0; kinds = {}
+    if rc != 0 or len(outl) < len(cases):
+        k = min(len(outl), len(cases) - 1)
+        cf = ck.write_replay("more_crash.txt", cases[k][0] + "\n")
+        ck.violation("more:crash", {"case_file": cf, "case": cases[k][0]}, "implementation crashed (rc=%s) on `%s`" % (rc, cases[k][0][:200])); nbad += 1
+    for (line, info), o in zip(cases, outl):
+        kinds[info["kind"]] = kinds.get(info["kind"], 0) + 1
+        msgs = monitor_more(o, info)
+        if msgs:
+            nbad += 1
+            if nbad <= 3:
+                cf = ck.write_replay("more_%d.txt" % nbad, line + "\n")
+                ck.violation("more:" + msgs[0].split(":")[0], {"case_file": cf, "case": line, "implementation_output": o[:2000], "monitor": msgs},
+                             "spec monitor fails on the implementation: " + msgs[0])
+    ck.oblige("monitor: GaussianKernelMatrix (float/double), DifferenceKernelMatrix, PartlyPrecomputedMatrix agree entry-wise with direct kernel evaluation through entry(), row(), CachedMatrix, PrecomputedMatrix under flips (%d cases)" % n, nbad == 0)
+    ck.notes["more_cases"] = kinds
+    return n
+
 def main():
     ck = Check(PID)
     ck.trusted = DEFAULT_TRUSTED + ["modelled not verified: real new[]/delete[] behaviour, boost::intrusive::list (its observable order is compared through listIndex)"]
@@ -246,7 +349,7 @@ def main():
             if "lines" in d:
                 if prev is not None and l[0] in "RT" and int(d["lines"]) < prev + (1 if l[0] == "R" else 0): evict += 1
                 prev = int(d["lines"])
-    ck.cov["evaluations"] = len(flat) + (derived_stream(ck, 300 if not big else 3000) if not ck.replay else 0)
+    ck.cov["evaluations"] = len(flat) + (derived_stream(ck, 300 if not big else 3000) if not ck.replay else 0) + (more_stream(ck, 300 if not big else 3000) if not ck.replay else 0)
     ck.cov["distinct_nontrivial"] = len(set(" ".join(c) for c in cases if len(c) > 3))
     ck.cov["rule"] = "random histories of CachedMatrix/LRUCache operations (row, const row, flip, setMaxCachedIndex, clear, truncate, mark) on n<=8 (16 in thorough) variables, capacities 1..n^2+3, filtered by the model's precondition check wf_op; non-trivial = at least 3 operations; distinct = distinct operation strings"
     ck.cov["samples"] = cases[:2]
